@@ -1594,7 +1594,7 @@ class Lower:
         if hoist:
             hd = '%s %s;' % (ct, nm)
             if hd not in self.hoisted:
-                if any(h.split()[-1] == nm + ';' for h in self.hoisted):
+                if any(h.split()[-1] == nm + ';' for h in self.hoisted) or (nm in getattr(self, 'outer_names', ()) and self.cur_spec.get('hoist_all')):
                     # same name, other type, sibling scope: the hoisted variable of this declaration gets a name of its own
                     self.rename_id = getattr(self, 'rename_id', {})
                     k2 = 2
@@ -1922,6 +1922,19 @@ class Lower:
         self.loop_ord = 0
         self.lam_ord = {}
         self.rename_id = {}
+        # names of locals declared outside every loop: they keep their declaration in place, so a loop-local of the same name that is
+        # hoisted to function scope must be renamed apart from them
+        self.outer_names = set(p.get('name', '') for p in params_of(d))
+
+        def _walk_outer(n, in_loop):
+            for c in n.get('inner', []):
+                if not isinstance(c, dict) or not c or c.get('kind') == 'LambdaExpr':
+                    continue
+                if c.get('kind') == 'VarDecl' and c.get('name') and not in_loop:
+                    self.outer_names.add(c['name'])
+                _walk_outer(c, in_loop or c.get('kind') in ('ForStmt', 'WhileStmt', 'DoStmt', 'CXXForRangeStmt'))
+        if has_body(d):
+            _walk_outer(body_of(d), False)
         self.captures = {}
         self.closures = []
         self.pre = []
